@@ -1103,3 +1103,37 @@ def rule_shift_full_frame(ctx, crate, rule="R-SHIFT-FULL-FRAME"):
                           "the Bottom-alignment shift is computed from a subset of the frame's lines (text rows are not counted): padding is written above printed "
                           "text and the next redraw erases it", cfg)
     ctx.floor(rule, n, 1, cfg, "uses of the new frame height under MultiProgressAlignment::Bottom")
+
+
+def rule_counted_rows_adjacent(ctx, crate, rule="R-COUNTED-ROWS-ADJACENT"):
+    """The rows committed to the erase count are erased from the bottom of the region upwards, so every counted row must
+    lie *below* every text line of the frame (text is never counted: R-TEXT-NOT-COUNTED). The per-line accumulation
+    satisfies this by the frame layout (text lines first, bars after). Any other summand of the committed value that stands
+    for rows painted *before* the line loop (the Bottom-alignment padding) is counted although text of the same frame —
+    or output written after a clear() — lies between those rows and the bottom: the next draw erases that text."""
+    cfg = crate.config
+    info = emitter_commit_info(ctx, crate, rule)
+    if not info:
+        return
+    pb, p, commits, acc = info
+    b = the_emitter(ctx, crate, rule)
+    paints = line_paint_calls(b) or line_paint_calls(pb)
+    if not paints:
+        ctx.lost(rule, cfg, "no per-line paint call found")
+        return
+    n = 0
+    for vs, reg, sb, pl in K.variant_regions(b, crate, "multi::MultiProgressAlignment"):
+        pads = [c for c in tl_calls(b, "write_line", "write_str") if c.bb in reg]
+        if not pads:
+            continue
+        for i, j, s in commits:
+            sl = b.slice_rv(i, s)
+            counted = any(d.get("bb") in reg for d in sl.defs if d.get("kind") in ("assign", "call"))
+            before_text = all(any(x.bb in b.reach_after(c.bb) for x in paints if x.body is b) or paints[0].body is not b for c in pads)
+            n += 1
+            v = "/".join(sorted(vs))
+            ctx.check(not (counted and before_text), rule, "padding-above-text:%s" % v, b.name, pads[0].loc(),
+                      "no counted row is painted above the frame's text lines",
+                      "the %s-alignment padding rows are written before the frame's lines but added to the committed row count: with text in the frame "
+                      "(println) or output written after clear() (suspend), the next draw erases that text instead of the padding" % v, cfg)
+    ctx.floor(rule, n, 1, cfg, "alignment arms that paint padding rows")
